@@ -18,12 +18,13 @@ theorem inLock_nextPc (th : Thr) (ok : Bool) : inLock (nextPc th ok) = false := 
 invariant speaks about. -/
 theorem inv_outside {s s' : Sys} {t : Nat} {th th' : Thr} (hi : Inv s) (hget : s.thr[t]? = some th)
     (hlock : s'.lock = s.lock) (hwire : s'.wire = s.wire) (hq : s'.q = s.q) (hsock : s'.sock = s.sock)
-    (hserial : s'.serial = s.serial) (hthr : s'.thr = s.thr.set t th') (hss : s'.sessSeq = s.sessSeq)
+    (hserial : s'.serial = s.serial) (hpar : s'.par = s.par) (hthr : s'.thr = s.thr.set t th')
+    (hss : s'.sessSeq = s.sessSeq)
     (hpc : inLock th.pc = false) (hpc' : inLock th'.pc = false) (hres : th'.results = th.results) : Inv s' := by
   have hown := hi.owner t th hget
   rw [hpc] at hown
   have hnl : s.lock ≠ some t := fun h => by simp [h] at hown
-  exact inv_local hi hget hlock hwire hq hsock hserial hthr (by rw [hpc, hpc']) hres
+  exact inv_local hi hget hlock hwire hq hsock hserial hpar hthr (by rw [hpc, hpc']) hres
     (fun hl => absurd hl hnl) (fun _ => hss)
 
 theorem stepThr_inv {s s' : Sys} {t : Nat} {th : Thr} (hi : Inv s) (ht : Tear s) (hget : s.thr[t]? = some th)
@@ -34,38 +35,38 @@ theorem stepThr_inv {s s' : Sys} {t : Nat} {th : Thr} (hi : Inv s) (ht : Tear s)
     simp only [stepThr, hpc] at h
     split at h
     · simp at h; subst h
-      exact inv_outside hi hget rfl rfl rfl rfl rfl rfl rfl (by rw [hpc]; rfl) rfl rfl
+      exact inv_outside hi hget rfl rfl rfl rfl rfl rfl rfl rfl (by rw [hpc]; rfl) rfl rfl
     · split at h
       · cases h
       · simp at h; subst h
-        exact inv_outside hi hget rfl rfl rfl rfl rfl rfl rfl (by rw [hpc]; rfl) rfl rfl
+        exact inv_outside hi hget rfl rfl rfl rfl rfl rfl rfl rfl (by rw [hpc]; rfl) rfl rfl
   | await =>
     simp only [stepThr, hpc] at h
     split at h
     · simp at h; subst h
-      refine inv_outside hi hget rfl rfl rfl rfl rfl rfl rfl (by rw [hpc]; rfl) ?_ ?_
+      refine inv_outside hi hget rfl rfl rfl rfl rfl rfl rfl rfl (by rw [hpc]; rfl) ?_ ?_
       · split <;> rfl
       · split <;> rfl
     · cases h
   | stopSet =>
     simp [stepThr, hpc] at h; subst h
-    refine inv_outside hi hget rfl rfl rfl rfl rfl rfl rfl (by rw [hpc]; rfl) ?_ ?_
+    refine inv_outside hi hget rfl rfl rfl rfl rfl rfl rfl rfl (by rw [hpc]; rfl) ?_ ?_
     · split <;> rfl
     · split <;> rfl
   | joinKa =>
     simp only [stepThr, hpc] at h
     split at h
     · simp at h; subst h
-      exact inv_outside hi hget rfl rfl rfl rfl rfl rfl rfl (by rw [hpc]; rfl) rfl rfl
+      exact inv_outside hi hget rfl rfl rfl rfl rfl rfl rfl rfl (by rw [hpc]; rfl) rfl rfl
     · cases h
   | chkAct =>
     simp [stepThr, hpc] at h; subst h
-    refine inv_outside hi hget rfl rfl rfl rfl rfl rfl rfl (by rw [hpc]; rfl) ?_ ?_
+    refine inv_outside hi hget rfl rfl rfl rfl rfl rfl rfl rfl (by rw [hpc]; rfl) ?_ ?_
     · split <;> rfl
     · split <;> rfl
   | actStore =>
     simp [stepThr, hpc] at h; subst h
-    exact inv_outside hi hget rfl rfl rfl rfl rfl rfl rfl (by rw [hpc]; rfl) rfl rfl
+    exact inv_outside hi hget rfl rfl rfl rfl rfl rfl rfl rfl (by rw [hpc]; rfl) rfl rfl
   | actLoad =>
     have hact : s.activated = true := by
       cases ha : s.activated with
@@ -75,7 +76,7 @@ theorem stepThr_inv {s s' : Sys} {t : Nat} {th : Thr} (hi : Inv s) (ht : Tear s)
     rw [hpc] at hown; simp [inLock] at hown
     have hh := hi.holder t th hget hown
     simp [HolderInv, hpc] at hh
-    refine inv_local hi hget rfl rfl rfl rfl rfl rfl ?_ rfl ?_ ?_
+    refine inv_local hi hget rfl rfl rfl rfl rfl rfl rfl ?_ rfl ?_ ?_
     · simp [inLock, hpc]
     · intro _; simp [HolderInv, Sys.upd]; exact hh
     · intro hl; exact absurd hown hl
@@ -84,7 +85,7 @@ theorem stepThr_inv {s s' : Sys} {t : Nat} {th : Thr} (hi : Inv s) (ht : Tear s)
     cases hsl : s.seqLocked with
     | false =>
       simp [stepThr, hpc, hsl] at h; subst h
-      refine inv_local hi hget rfl rfl rfl rfl rfl rfl ?_ rfl ?_ ?_
+      refine inv_local hi hget rfl rfl rfl rfl rfl rfl rfl ?_ rfl ?_ ?_
       · simp [inLock, hpc]
       · intro hl; exact absurd hl hown
       · intro _; rfl
@@ -126,12 +127,13 @@ theorem stepThr_inv {s s' : Sys} {t : Nat} {th : Thr} (hi : Inv s) (ht : Tear s)
           rcases get_set_cases hget hb with ⟨rfl, rfl⟩ | ⟨hne, hb⟩
           · exact hi.res _ _ hget r hr
           · exact hi.res _ _ hb r hr
+        · exact hi.repack
   | lkLoad =>
     simp [stepThr, hpc] at h; subst h
     rw [hpc] at hown; simp [inLock] at hown
     have hh := hi.holder t th hget hown
     simp [HolderInv, hpc] at hh
-    refine inv_local hi hget rfl rfl rfl rfl rfl rfl ?_ rfl ?_ ?_
+    refine inv_local hi hget rfl rfl rfl rfl rfl rfl rfl ?_ rfl ?_ ?_
     · simp [inLock, hpc]
     · intro _; simp [HolderInv, Sys.upd]; exact hh
     · intro hl; exact absurd hown hl
@@ -140,7 +142,7 @@ theorem stepThr_inv {s s' : Sys} {t : Nat} {th : Thr} (hi : Inv s) (ht : Tear s)
     rw [hpc] at hown; simp [inLock] at hown
     have hh := hi.holder t th hget hown
     simp [HolderInv, hpc] at hh
-    refine inv_local hi hget rfl rfl rfl rfl rfl rfl ?_ rfl ?_ ?_
+    refine inv_local hi hget rfl rfl rfl rfl rfl rfl rfl ?_ rfl ?_ ?_
     · simp [inLock, hpc]
     · intro _; simp [HolderInv, Sys.upd]; exact hh
     · intro hl; exact absurd hown hl
@@ -149,21 +151,21 @@ theorem stepThr_inv {s s' : Sys} {t : Nat} {th : Thr} (hi : Inv s) (ht : Tear s)
     rw [hpc] at hown; simp [inLock] at hown
     have hh := hi.holder t th hget hown
     simp [HolderInv, hpc] at hh
-    refine inv_local hi hget rfl rfl rfl rfl rfl rfl ?_ rfl ?_ ?_
+    refine inv_local hi hget rfl rfl rfl rfl rfl rfl rfl ?_ rfl ?_ ?_
     · simp [inLock, hpc]
     · intro _; simp [HolderInv, Sys.upd]; exact hh
     · intro hl; exact absurd hown hl
   | incStore =>
     simp [stepThr, hpc] at h; subst h
     rw [hpc] at hown; simp [inLock] at hown
-    refine inv_local hi hget rfl rfl rfl rfl rfl rfl ?_ rfl ?_ ?_
+    refine inv_local hi hget rfl rfl rfl rfl rfl rfl rfl ?_ rfl ?_ ?_
     · simp [inLock, hpc]
     · intro hl; exact absurd hl hown
     · intro _; rfl
   | hdrLoad =>
     simp [stepThr, hpc] at h; subst h
     rw [hpc] at hown; simp [inLock] at hown
-    refine inv_local hi hget rfl rfl rfl rfl rfl rfl ?_ rfl ?_ ?_
+    refine inv_local hi hget rfl rfl rfl rfl rfl rfl rfl ?_ rfl ?_ ?_
     · simp [inLock, hpc]
     · intro hl; exact absurd hl hown
     · intro _; rfl
@@ -205,12 +207,13 @@ theorem stepThr_inv {s s' : Sys} {t : Nat} {th : Thr} (hi : Inv s) (ht : Tear s)
         rcases get_set_cases hget hb with ⟨rfl, rfl⟩ | ⟨hne, hb⟩
         · exact hi.res _ _ hget r hr
         · exact hi.res _ _ hb r hr
+      · exact hi.repack
   | ssLoad =>
     simp [stepThr, hpc] at h; subst h
     rw [hpc] at hown; simp [inLock] at hown
     have hh := hi.holder t th hget hown
     simp [HolderInv, hpc] at hh
-    refine inv_local hi hget rfl rfl rfl rfl rfl rfl ?_ rfl ?_ ?_
+    refine inv_local hi hget rfl rfl rfl rfl rfl rfl rfl ?_ rfl ?_ ?_
     · simp [inLock, hpc]
     · intro _; simp [HolderInv, Sys.upd]; exact hh
     · intro hl; exact absurd hown hl
@@ -220,7 +223,7 @@ theorem stepThr_inv {s s' : Sys} {t : Nat} {th : Thr} (hi : Inv s) (ht : Tear s)
     have hh := hi.holder t th hget hown
     simp [HolderInv, hpc] at hh
     obtain ⟨h1, h2, h3, h4, h5⟩ := hh
-    refine inv_local hi hget rfl rfl rfl rfl rfl rfl ?_ rfl ?_ ?_
+    refine inv_local hi hget rfl rfl rfl rfl rfl rfl rfl ?_ rfl ?_ ?_
     · simp [inLock, hpc]
     · intro _
       simp [HolderInv, Sys.upd]
@@ -233,7 +236,7 @@ theorem stepThr_inv {s s' : Sys} {t : Nat} {th : Thr} (hi : Inv s) (ht : Tear s)
     have hh := hi.holder t th hget hown
     simp [HolderInv, hpc] at hh
     obtain ⟨h1, h2, h3, h4⟩ := hh
-    refine inv_local hi hget rfl rfl rfl rfl rfl rfl ?_ rfl ?_ ?_
+    refine inv_local hi hget rfl rfl rfl rfl rfl rfl rfl ?_ rfl ?_ ?_
     · simp only [hpc]; split <;> simp [inLock]
     · intro _
       by_cases hw : s.sessSeq > 0xffffffff
@@ -253,7 +256,7 @@ theorem stepThr_inv {s s' : Sys} {t : Nat} {th : Thr} (hi : Inv s) (ht : Tear s)
     have hh := hi.holder t th hget hown
     simp [HolderInv, hpc] at hh
     obtain ⟨h1, h2, h3⟩ := hh
-    refine inv_local hi hget rfl rfl rfl rfl rfl rfl ?_ rfl ?_ ?_
+    refine inv_local hi hget rfl rfl rfl rfl rfl rfl rfl ?_ rfl ?_ ?_
     · simp [inLock, hpc]
     · intro _
       simp [HolderInv, Sys.upd]
@@ -268,13 +271,13 @@ theorem stepThr_inv {s s' : Sys} {t : Nat} {th : Thr} (hi : Inv s) (ht : Tear s)
     cases k with
     | zero =>
       simp [stepThr, hpc] at h; subst h
-      refine inv_local hi hget rfl rfl rfl rfl rfl rfl ?_ rfl ?_ ?_
+      refine inv_local hi hget rfl rfl rfl rfl rfl rfl rfl ?_ rfl ?_ ?_
       · simp [inLock, hpc]
       · intro _; simp [HolderInv, Sys.upd]; exact ⟨h1, h2, h3, h4⟩
       · intro hl; exact absurd hown hl
     | succ k =>
       simp [stepThr, hpc] at h; subst h
-      refine inv_local hi hget rfl rfl rfl rfl rfl rfl ?_ rfl ?_ ?_
+      refine inv_local hi hget rfl rfl rfl rfl rfl rfl rfl ?_ rfl ?_ ?_
       · simp [inLock, hpc]
       · intro _; simp [HolderInv, Sys.upd]; exact ⟨h1, h2, h3, h4⟩
       · intro hl; exact absurd hown hl
@@ -284,39 +287,61 @@ theorem stepThr_inv {s s' : Sys} {t : Nat} {th : Thr} (hi : Inv s) (ht : Tear s)
     have hh := hi.holder t th hget hown
     simp [HolderInv, hpc] at hh
     obtain ⟨h1, h2, h3, h4, h5⟩ := hh
-    have hnc : (monOf s.wire).closed = false := by
-      cases hcl : (monOf s.wire).closed with
-      | false => rfl
-      | true =>
-        rcases ht.closed hcl _ _ hget with h | ⟨_, h⟩
-        · rw [hpc] at h; cases h
-        · rw [hpc] at h; cases h
-    refine inv_holder hi hget hown hown rfl ?_ rfl ?_ ?_ ?_ ?_ hi.q ?_ ?_
+    have hnc : (monOf s.wire).closed = true → th.cmd = closeCmd ∧ (monOf s.wire).closedBy = some t := by
+      intro hcl
+      rcases ht.closed hcl _ _ hget with h | ⟨h, h'⟩
+      · rw [hpc] at h; cases h
+      · exact ⟨ht.cmdClose _ _ hget h (by rw [hpc]; rfl), h'⟩
+    refine inv_holder hi hget hown hown rfl rfl ?_ rfl ?_ ?_ ?_ ?_ hi.q ?_ ?_ ?_
     · simp [inLock]
     · simp [Sys.upd, Mon.step, hi.exch, h1, hi.ntx]
     · simp only [Sys.upd, monOf_cons, Mon.step, hi.incr, Bool.true_and]
       cases hlast : (monOf s.wire).last with
       | none => rfl
       | some a => simp only []; rw [h5]; exact h3 a hlast
-    · simp [Sys.upd, Mon.step, hi.after, hnc]
+    · cases hcl : (monOf s.wire).closed with
+      | false => simp [Sys.upd, Mon.step, hi.after, hcl]
+      | true => simp [Sys.upd, Mon.step, hi.after, hcl, (hnc hcl).1, (hnc hcl).2]
     · simp [Sys.upd, Mon.step, hi.ntx]
     · intro t' n hs; simp [Sys.upd, hs]
-    · simp [HolderInv, Sys.upd, Mon.step, h2, h4, h5]
+    · intro t' n hs; simp [Sys.upd, hs]
+    · cases hlost : lostAt s.par.loss s.serial with
+      | false => simp [HolderInv, Sys.upd, Mon.step, h2, h4, h5, hlost]
+      | true => simp [HolderInv, Sys.upd, Mon.step, h2, h4, h5, hlost]
   | recv =>
     rw [hpc] at hown; simp [inLock] at hown
     have hh := hi.holder t th hget hown
     simp [HolderInv, hpc] at hh
     obtain ⟨h1, h2, h3, h4, h5⟩ := hh
-    simp [stepThr, hpc, hi.q, h2] at h; subst h
-    refine inv_holder hi hget hown hown rfl ?_ rfl ?_ ?_ ?_ ?_ rfl ?_ ?_
-    · simp [inLock]
-    · simp [Sys.upd, Mon.step, hi.exch, h1]
-    · simp [Sys.upd, Mon.step, hi.incr]
-    · simp [Sys.upd, Mon.step, hi.after]
-    · simp [Sys.upd, Mon.step, hi.ntx]
-    · intro t' n hs; simp [Sys.upd, hs]
-    · simp [HolderInv, Sys.upd, Mon.step, h4, h5]
-      exact h3
+    rcases h2 with h2 | ⟨h2, hlost⟩
+    · simp [stepThr, hpc, hi.q, h2] at h; subst h
+      refine inv_holder hi hget hown hown rfl rfl ?_ rfl ?_ ?_ ?_ ?_ rfl ?_ ?_ ?_
+      · simp [inLock]
+      · simp [Sys.upd, Mon.step, hi.exch, h1]
+      · simp [Sys.upd, Mon.step, hi.incr]
+      · simp [Sys.upd, Mon.step, hi.after]
+      · simp [Sys.upd, Mon.step, hi.ntx]
+      · intro t' n hs; simp [Sys.upd, hs]
+      · intro t' n hs; simp [Sys.upd, hs]
+      · simp [HolderInv, Sys.upd, Mon.step, h4, h5]
+        exact h3
+    · -- the reply was lost: socket.timeout
+      simp [stepThr, hpc, hi.q, h2] at h; subst h
+      refine inv_holder hi hget hown hown rfl rfl ?_ rfl ?_ ?_ ?_ ?_ rfl ?_ ?_ ?_
+      · simp only []; (repeat' split) <;> simp [inLock]
+      · simp [Sys.upd, Mon.step, hi.exch, h1]
+      · simp [Sys.upd, Mon.step, hi.incr]
+      · simp [Sys.upd, Mon.step, hi.after]
+      · simp [Sys.upd, Mon.step, hi.ntx]
+      · intro t' n hs; simp [Sys.upd, hs]
+      · intro t' n hs; simp [Sys.upd, hs]
+      · by_cases hb : th.retry + 1 ≤ s.par.maxRetries
+        · rcases hi.repack with hp | hp
+          · simp [HolderInv, Sys.upd, Mon.step, hb, hp, h4]
+            exact h3
+          · omega
+        · simp [HolderInv, Sys.upd, Mon.step, hb, h4, h5, hlost]
+          exact h3
   | requeue =>
     rw [hpc] at hown; simp [inLock] at hown
     have hh := hi.holder t th hget hown
@@ -326,7 +351,7 @@ theorem stepThr_inv {s s' : Sys} {t : Nat} {th : Thr} (hi : Inv s) (ht : Tear s)
     rw [hpc] at hown; simp [inLock] at hown
     have hh := hi.holder t th hget hown
     simp [HolderInv, hpc] at hh
-    obtain ⟨h1, h2, h3, h4, ⟨r, hr1, hr2⟩, h6⟩ := hh
+    obtain ⟨h1, h2, h3, h4, h6, hgot⟩ := hh
     constructor
     · intro t' b hb
       rcases get_set_cases hget hb with ⟨rfl, rfl⟩ | ⟨hne, hb⟩
@@ -345,11 +370,17 @@ theorem stepThr_inv {s s' : Sys} {t : Nat} {th : Thr} (hi : Inv s) (ht : Tear s)
     · intro t' b hb hl'; simp [Sys.upd] at hl'
     · intro t' b hb x hx
       rcases get_set_cases hget hb with ⟨rfl, rfl⟩ | ⟨hne, hb⟩
-      · simp only [afterCall, hr1, List.mem_cons] at hx
-        rcases hx with rfl | hx
-        · exact ⟨th.mine, by rw [hr2], h6⟩
-        · exact hi.res _ _ hget x hx
+      · rcases hgot with ⟨r, hr1, hr2⟩ | ⟨hr1, hto, hlost⟩
+        · simp only [afterCall, hr1, List.mem_cons] at hx
+          rcases hx with rfl | hx
+          · exact Or.inl ⟨th.mine, by rw [hr2], h6⟩
+          · exact hi.res _ _ hget x hx
+        · simp only [afterCall, hr1, List.mem_cons] at hx
+          rcases hx with rfl | hx
+          · exact Or.inr ⟨th.mine, rfl, h6, hto, hlost⟩
+          · exact hi.res _ _ hget x hx
       · exact hi.res _ _ hb x hx
+    · exact hi.repack
   | done => simp [stepThr, hpc] at h
 
 theorem step_inv {s s' : Sys} {t : Nat} (hi : Inv s) (ht : Tear s) (h : step s t = some s') :
@@ -398,7 +429,8 @@ theorem initThr_results (cl : Option Nat) (i : Nat) (p : Nat × Nat) : (initThr 
 theorem initThr_inLock (cl : Option Nat) (i : Nat) (p : Nat × Nat) : inLock (initThr cl i p).pc = false := by
   simp only [initThr]; split <;> simp only [] <;> split <;> rfl
 
-theorem init_inv (c : Cfg) (hs : c.sessSeq ≤ 0xffffffff) : Inv (init c) := by
+theorem init_inv (c : Cfg) (hs : c.sessSeq ≤ 0xffffffff) (hr : c.packOnce = false ∨ c.maxRetries = 0) :
+    Inv (init c) := by
   constructor
   · intro t th hget
     have hl : (init c).lock = none := rfl
@@ -414,15 +446,18 @@ theorem init_inv (c : Cfg) (hs : c.sessSeq ≤ 0xffffffff) : Inv (init c) := by
   · rfl
   · intro _; exact ⟨rfl, rfl, by intro a h; simp [init, Mon.init] at h, hs⟩
   · intro t th _ h; simp [init] at h
-  · intro t th hget r hr
+  · intro t th hget r hr'
     rcases init_get hget with ⟨p, _, rfl⟩ | ⟨n, _, _, rfl⟩
-    · rw [initThr_results] at hr; cases hr
-    · simp [initKa] at hr
+    · rw [initThr_results] at hr'; cases hr'
+    · simp [initKa] at hr'
+  · exact hr
 
-/-- Configurations the teardown invariant covers: the stopper joins the keep-alive thread — or no
-thread closes the session —, and Close Session is issued by `close_session` only. -/
+/-- Configurations the invariants cover: the stopper joins the keep-alive thread — or no
+thread closes the session —, Close Session is issued by `close_session` only, and the session wrapper is
+packed for every attempt (or `max_retries = 0`: there is no second attempt).  Any retry budget, any loss plan. -/
 def Cfg.Safe (c : Cfg) : Prop :=
-  (c.join = true ∨ c.closer = none) ∧ ∀ p ∈ c.threads, p.2 ≠ closeCmd
+  (c.join = true ∨ c.closer = none) ∧ (∀ p ∈ c.threads, p.2 ≠ closeCmd) ∧
+    (c.packOnce = false ∨ c.maxRetries = 0)
 
 theorem init_tear (c : Cfg) (hc : c.Safe) : Tear (init c) := by
   have hpcs : ∀ (t : Nat) (th : Thr), (init c).thr[t]? = some th →
@@ -455,7 +490,7 @@ theorem init_tear (c : Cfg) (hc : c.Safe) : Tear (init c) := by
     rcases init_get hget with ⟨p, hp, rfl⟩ | ⟨n, _, _, rfl⟩
     · have : (initThr c.closer t p).cmd = p.2 := by simp only [initThr]; split <;> rfl
       rw [this]
-      exact hc.2 p (List.mem_of_getElem? hp)
+      exact hc.2.1 p (List.mem_of_getElem? hp)
     · simp [initKa, closeCmd]
   · intro t t' th th' hget hget' k k'
     have key : ∀ (t : Nat) (th : Thr), (init c).thr[t]? = some th → th.kind = .closer → c.closer = some t := by
@@ -480,6 +515,8 @@ theorem init_tear (c : Cfg) (hc : c.Safe) : Tear (init c) := by
   · intro t th hget hp
     rcases (hpcs t th hget).2 with h | h | h | h <;> simp_all
   · intro h; cases h
+  · intro t th hget hp
+    rw [(hpcs t th hget).1] at hp; cases hp
 
 theorem mem_resultsFrom {k : Nat} {l : List Thr} {r : Res} (h : r ∈ resultsFrom k l) :
     ∃ i th cr, l[i]? = some th ∧ cr ∈ th.results ∧ r = resOf (k + i) cr := by
@@ -499,10 +536,13 @@ theorem inv_accepts {s : Sys} (hi : Inv s) : accepts s.wireChron s.results = tru
   simp only [ownReply, List.all_eq_true]
   intro r hr
   obtain ⟨i, th, cr, h1, h2, h3⟩ := mem_resultsFrom hr
-  obtain ⟨n, hn, hs⟩ := hi.res i th h1 cr h2
-  subst hn
-  subst h3
-  simp [resOf, sentBy_reverse, hs]
+  rcases hi.res i th h1 cr h2 with ⟨n, hn, hs⟩ | ⟨n, hn, hs, hto, _⟩
+  · subst hn
+    subst h3
+    simp [resOf, sentBy_reverse, hs]
+  · subst hn
+    subst h3
+    simp [resOf, sentBy_reverse, timedOut_reverse, hs, hto]
 
 /-- An accepted trace is a run of the model under the schedule it names. -/
 theorem replayFrom_run {i : Nat} {s s' : Sys} {tr : List (Nat × Act)}
